@@ -227,8 +227,10 @@ def _run(cmd, cwd=None, timeout=1800):
     return p.returncode, p.stdout
 
 
-def coq_make():
-    """full (.vo) incremental build of the development; serialised across concurrent checks"""
+def coq_make(targets=None):
+    """full (.vo) incremental build (of the given targets, default: everything); serialised across
+    concurrent checks.  Building only the property's own closure keeps a broken obligation of one
+    property from breaking the others."""
     lock = open(os.path.join(COQ, '.build.lock'), 'w')
     fcntl.flock(lock, fcntl.LOCK_EX)
     try:
@@ -237,7 +239,8 @@ def coq_make():
             rc, out = _run(['coq_makefile', '-f', '_CoqProject', '-o', 'Makefile'], cwd=COQ)
             if rc:
                 return False, out
-        rc, out = _run(['timeout', '3000', 'make', '-j16'], cwd=COQ, timeout=3100)
+        cmd = ['timeout', '3000', 'make', '-j16'] + list(targets or [])
+        rc, out = _run(cmd, cwd=COQ, timeout=3100)
         return rc == 0, out
     finally:
         fcntl.flock(lock, fcntl.LOCK_UN)
@@ -481,8 +484,9 @@ def hash_int(s):
 # ------------------------------------------------------------------------------------------
 # standard stages
 # ------------------------------------------------------------------------------------------
-def stage_proof(ctx, prop_files):
-    ok, out = coq_make()
+def stage_proof(ctx, prop_files, extra_targets=()):
+    targets = [f[:-2] + '.vo' for f in prop_files] + list(extra_targets)
+    ok, out = coq_make(targets)
     if not ok:
         ctx.notes.append('coq build failed')
         ctx.fail('Coq development no longer builds: ' + out[-1500:], {'stage': 'build', 'log': out[-3000:]},
